@@ -1,4 +1,6 @@
 
+val negb : bool -> bool
+
 type nat =
 | O
 | S of nat
@@ -44,6 +46,8 @@ val mul : nat -> nat -> nat
 
 val sub : nat -> nat -> nat
 
+val eqb : bool -> bool -> bool
+
 type positive =
 | XI of positive
 | XO of positive
@@ -63,6 +67,8 @@ module Nat :
   val eqb : nat -> nat -> bool
 
   val leb : nat -> nat -> bool
+
+  val ltb : nat -> nat -> bool
 
   val to_little_uint : nat -> uint -> uint
 
@@ -361,3 +367,25 @@ val stmt_of_block : str -> str
 val sexpr_eqb : sexpr -> sexpr -> bool
 
 val block_matches : str -> nat -> sexpr -> bool
+
+val all_blank : str -> bool
+
+val chunks_from : str -> str -> bool -> str list
+
+val chunks_of : str -> str list
+
+val fill : nat -> nat -> str list -> str list -> (str list * nat) * str list
+
+val rfind_hyphen : str -> nat -> nat -> nat option -> nat option
+
+val long_end : str -> nat -> nat
+
+val wrap_round : nat -> bool -> str list -> str list * str list
+
+val wrap_chunks : nat -> nat -> bool -> str list -> str list list
+
+val wrap : nat -> str -> str list
+
+val equation_block : str list -> nat -> str -> str option
+
+val array_def_block : nat -> nat list -> str -> str
